@@ -78,7 +78,9 @@ type jarCookie struct {
 	// AlsoExpires != 0 (responses with Max-Age only): the Set-Cookie additionally carries an Expires
 	// attribute AlsoExpires seconds from now (negative = past) that contradicts or agrees with
 	// Max-Age. RFC 6265 5.3: Max-Age has precedence, so the specification ignores it.
-	AlsoExpires int    `json:"also_expires_rel_s,omitempty"`
+	AlsoExpires int `json:"also_expires_rel_s,omitempty"`
+	// Huge (Max-Age only): Max-Age=9999999999 - far beyond any history, the cookie never expires here
+	Huge        bool   `json:"max_age_huge,omitempty"`
 	MaxAgeFirst bool   `json:"max_age_before_expires,omitempty"`
 	Delete      string `json:"delete,omitempty"` // "max-age-0" | "past-expires" (responses only)
 }
@@ -90,8 +92,11 @@ type jarOp struct {
 	Path    string      `json:"path,omitempty"`
 	Cookies []jarCookie `json:"cookies,omitempty"`
 	Secs    int         `json:"secs,omitempty"`
-	KeepObj bool        `json:"keep_obj,omitempty"`         // do not release the harness' cookie objects after Set
-	RelRet  bool        `json:"release_returned,omitempty"` // Get: release the returned cookies (documented as safe)
+	KeepObj bool        `json:"keep_obj,omitempty"` // do not release the harness' cookie objects after Set
+	// Target (cycle): the request goes to Host, which redirects to Target (the client follows:
+	// SetMaxRedirects); the Set-Cookie lines come from Target, so the cookies belong to Target
+	Target string `json:"redirect_target,omitempty"`
+	RelRet bool   `json:"release_returned,omitempty"` // Get: release the returned cookies (documented as safe)
 }
 
 type jarWrite struct {
@@ -103,6 +108,7 @@ type jarWrite struct {
 	via      string
 	at       time.Time
 	expAt    time.Time // zero = never
+	redirect bool      // set by the target of a redirect
 	updated  bool      // the spec held a live cookie (host,name) when this write arrived via a response
 }
 
@@ -111,15 +117,16 @@ type jarEntry struct {
 }
 
 type jarSpec struct {
-	writes  map[string]*jarWrite // by value
-	live    map[string]*jarEntry // hostname + "\x00" + name
-	gone    map[string]string    // value -> why it is no longer stored: superseded | server-deleted:<kind> | released
-	purged  map[string]bool      // hostname -> an expired cookie of this host was due for purge at a Get
-	respUpd map[string]bool      // hostname+name -> a response carried a cookie that was already stored
-	ever    map[string]bool      // hostname+name -> written since the last release
-	anyPurg bool
-	hosts   map[string]bool
-	expired int
+	writes    map[string]*jarWrite // by value
+	live      map[string]*jarEntry // hostname + "\x00" + name
+	gone      map[string]string    // value -> why it is no longer stored: superseded | server-deleted:<kind> | released
+	purged    map[string]bool      // hostname -> an expired cookie of this host was due for purge at a Get
+	respUpd   map[string]bool      // hostname+name -> a response carried a cookie that was already stored
+	redirFrom map[string]bool      // origin hostname+name -> a followed redirect from this host brought a Set-Cookie of this name from another host
+	ever      map[string]bool      // hostname+name -> written since the last release
+	anyPurg   bool
+	hosts     map[string]bool
+	expired   int
 	// reuse: the history releases URI / request / cookie objects after use (documented as safe), so
 	// the pools hand the same objects out again. Catch-all classes carry it in the signature: a
 	// catch-all violation in a history that reuses nothing is a different root cause.
@@ -129,7 +136,7 @@ type jarSpec struct {
 
 func newJarSpec() *jarSpec {
 	return &jarSpec{writes: map[string]*jarWrite{}, live: map[string]*jarEntry{}, gone: map[string]string{},
-		purged: map[string]bool{}, hosts: map[string]bool{}, respUpd: map[string]bool{}, ever: map[string]bool{}}
+		purged: map[string]bool{}, hosts: map[string]bool{}, respUpd: map[string]bool{}, ever: map[string]bool{}, redirFrom: map[string]bool{}}
 }
 
 func (s *jarSpec) put(w *jarWrite) {
@@ -254,6 +261,9 @@ func (s *jarSpec) judge(now time.Time, host, path string, got []retCookie, wire 
 		case w.ck.Name != r.Name:
 			out = append(out, jarFinding{"jar|unknown-cookie|name-of-another-write" + ctx(), "Get returned the value of one write under the name of another", r})
 			continue
+		case w.hostname != hn && w.redirect:
+			out = append(out, jarFinding{"jar|other-host|set-by-redirect-target", fmt.Sprintf("cookie set by %s, the target of a redirect, returned for %s", w.hostname, hn), r})
+			continue
 		case w.hostname != hn:
 			out = append(out, jarFinding{"jar|other-host" + ctx(), fmt.Sprintf("cookie stored for host %s returned for host %s", w.hostname, hn), r})
 			continue
@@ -264,6 +274,9 @@ func (s *jarSpec) judge(now time.Time, host, path string, got []retCookie, wire 
 				cls := "other" + ctx()
 				lv := s.live[hn+"\x00"+r.Name]
 				switch {
+				case lv != nil && lv.w.redirect:
+					out = append(out, jarFinding{"jar|other-host|set-by-redirect-target", "the cookie set by the target of a redirect did not replace the target's stored cookie", r})
+					continue
 				case s.caseTwin(w):
 					cls = "name-differs-only-in-case"
 				case isV6(host) && (hostHasPort(w.host) != hostHasPort(host) || (lv != nil && hostHasPort(lv.w.host) != hostHasPort(host))):
@@ -343,6 +356,11 @@ func (s *jarSpec) judge(now time.Time, host, path string, got []retCookie, wire 
 			// the reversed prefix test alone explains this one, whatever else is true of the cookie
 			out = append(out, jarFinding{"jar|path-prefix-reversed", fmt.Sprintf("cookie with path %q withheld for request path %q", w.ck.Path, path), retCookie{w.ck.Name, w.ck.Value, w.ck.Path}})
 			continue
+		case w.redirect:
+			out = append(out, jarFinding{"jar|other-host|set-by-redirect-target", fmt.Sprintf("cookie set by %s, the target of a redirect, is not stored for it", w.hostname), retCookie{w.ck.Name, w.ck.Value, w.ck.Path}})
+			continue
+		case w.ck.Huge:
+			cls = "max-age-overflow"
 		case s.caseTwin(w):
 			// another cookie of this host has the same name in different letter case
 			cls = "name-differs-only-in-case"
@@ -358,6 +376,18 @@ func (s *jarSpec) judge(now time.Time, host, path string, got []retCookie, wire 
 			cls = "after-response-update-of-existing"
 		}
 		out = append(out, jarFinding{"jar|withheld|" + cls, fmt.Sprintf("unexpired cookie with path %q stored for %s not returned for %s%s", w.ck.Path, w.host, host, path), retCookie{w.ck.Name, w.ck.Value, w.ck.Path}})
+	}
+	// A followed redirect stores the target's cookies under the origin host: whatever goes wrong
+	// afterwards with a cookie of that name at the origin (overwritten, deleted, duplicated) is
+	// that root cause.
+	for k := range out {
+		name := ""
+		if rc, ok := out[k].ck.(retCookie); ok {
+			name = rc.Name
+		}
+		if name != "" && s.redirFrom[hn+"\x00"+name] && out[k].sig != "jar|path-prefix-reversed" {
+			out[k].sig = "jar|other-host|set-by-redirect-target"
+		}
 	}
 	return out
 }
@@ -392,6 +422,11 @@ func newJarRig() *jarRig {
 				r.gotCk = append(r.gotCk, parseCookieHeader(string(v))...)
 			}
 		})
+		if to := c.Query("redirect_to"); to != "" {
+			// first hop of a redirect: no cookies here, the target sets them
+			r.gotCk = nil
+			return c.Redirect().Status(302).To("http://" + to + c.Path())
+		}
 		for _, l := range r.setLines {
 			c.Response().Header.Add("Set-Cookie", l)
 		}
@@ -464,7 +499,10 @@ func genJarCookie(r *gen.Rand, viaResponse bool, pathless bool, reqPath string) 
 	}
 	if viaResponse && r.Chance(1, 5) {
 		ck.ExpKind, ck.ExpRel = expNone, 0
-		ck.Delete = gen.Pick(r, []string{"max-age-0", "past-expires"})
+		ck.Delete = gen.Pick(r, []string{"max-age-0", "past-expires", "negative-max-age"})
+	}
+	if viaResponse && ck.ExpKind == expMaxAge && r.Chance(1, 6) {
+		ck.Huge = true
 	}
 	if viaResponse && (ck.ExpKind == expMaxAge || ck.Delete == "max-age-0") && r.Chance(1, 2) {
 		// both attributes, all four combinations (Expires past / future x Max-Age <= 0 / > 0)
@@ -510,6 +548,9 @@ func genJarHistory(r *gen.Rand) []jarOp {
 			ops = append(ops, op)
 		case 1:
 			op := jarOp{Op: "cycle", Host: gen.Pick(r, hosts), Path: gen.Pick(r, jarReqPaths)}
+			if t := gen.Pick(r, hosts); r.Chance(1, 8) && hostName(t) != hostName(op.Host) {
+				op.Target = t
+			}
 			k := r.Range(0, 2)
 			seen := map[string]bool{}
 			for j := 0; j < k; j++ {
@@ -519,6 +560,14 @@ func genJarHistory(r *gen.Rand) []jarOp {
 				}
 				seen[ck.Name] = true
 				op.Cookies = append(op.Cookies, ck)
+			}
+			for _, ck := range op.Cookies {
+				if ck.Delete == "negative-max-age" {
+					// the unchanged tree fails the whole request on it: alone in its response, so
+					// that nothing else is attributed to this class
+					op.Cookies = []jarCookie{ck}
+					break
+				}
 			}
 			ops = append(ops, op)
 		case 2:
@@ -627,7 +676,13 @@ func (je *jarEngine) runHistory(c *ev.Case, reuse bool, ops []jarOp) {
 				if ck.Delete != "" {
 					ck.Value = "d" + strconv.Itoa(je.nextID)
 				}
-				w := &jarWrite{id: je.nextID, op: i, host: op.Host, hostname: hostName(op.Host), ck: *ck, via: "response", at: now()}
+				setter := op.Host
+				if op.Target != "" {
+					setter = op.Target
+					spec.redirFrom[hostName(op.Host)+"\x00"+ck.Name] = true
+					spec.redirFrom[hostName(op.Target)+"\x00"+ck.Name] = true // the target misses what it set / deleted
+				}
+				w := &jarWrite{id: je.nextID, op: i, host: setter, hostname: hostName(setter), ck: *ck, via: "response", at: now(), redirect: op.Target != ""}
 				line := ck.Name + "=" + ck.Value
 				if ck.Path != "" {
 					line += "; Path=" + ck.Path
@@ -640,6 +695,10 @@ func (je *jarEngine) runHistory(c *ev.Case, reuse bool, ops []jarOp) {
 				switch {
 				case ck.Delete == "max-age-0":
 					maxAge = "; Max-Age=0"
+				case ck.Delete == "negative-max-age":
+					maxAge = "; Max-Age=-1"
+				case ck.ExpKind == expMaxAge && ck.Huge:
+					maxAge = "; Max-Age=9999999999" // w.expAt stays zero: beyond every history
 				case ck.Delete == "past-expires":
 					line += "; Expires=" + httpDate(time.Now().Add(-3*time.Second))
 				case ck.ExpKind == expExpires:
@@ -664,20 +723,37 @@ func (je *jarEngine) runHistory(c *ev.Case, reuse bool, ops []jarOp) {
 			before := je.rig.served
 			je.rig.mu.Unlock()
 			sentAt, sentMs := now(), ms()
-			resp, err := cl.Get("http://" + op.Host + op.Path)
-			if err != nil {
+			var resp *client.Response
+			var err error
+			wantServed := 1
+			if op.Target != "" {
+				wantServed = 2
+				resp, err = cl.R().SetMaxRedirects(3).Get("http://" + op.Host + op.Path + "?redirect_to=" + op.Target)
+			} else {
+				resp, err = cl.Get("http://" + op.Host + op.Path)
+			}
+			negMaxAge := false
+			for _, l := range lines {
+				if strings.Contains(l, "Max-Age=-1") {
+					negMaxAge = true
+				}
+			}
+			if err != nil && negMaxAge {
+				// a negative Max-Age means "delete now" (RFC 6265 5.2.2); the exchange itself succeeded
+				report(i, []jarFinding{{"jar|server-deleted-returned|negative-max-age", "a response deleting a cookie with Max-Age=-1 made the whole request fail: " + err.Error(), lines}}, lines)
+			} else if err != nil {
 				e.Violation(c, "jar|cycle-error|"+sigWord(err.Error()), "request cycle with a cookie jar failed", map[string]any{"err": err.Error(), "history": ops[:i+1]})
 				client.ReleaseCookieJar(jar)
 				return
 			}
-			if reuse {
+			if err == nil && reuse {
 				resp.Close()
 			}
 			je.rig.mu.Lock()
 			wire := append([]kv(nil), je.rig.gotCk...)
 			served := je.rig.served - before
 			je.rig.mu.Unlock()
-			if served != 1 {
+			if served != wantServed {
 				e.Inconclusive("cycle did not reach the server exactly once")
 				client.ReleaseCookieJar(jar)
 				return
@@ -687,9 +763,13 @@ func (je *jarEngine) runHistory(c *ev.Case, reuse bool, ops []jarOp) {
 				got = append(got, retCookie{Name: x.K, Value: x.V})
 			}
 			e.Eval(1)
-			trace = append(trace, map[string]any{"step": i, "op": "cycle", "url": "http://" + op.Host + op.Path, "cookie_header": wire, "set_cookie": lines, "t_ms": sentMs})
-			fs := spec.judge(sentAt, op.Host, op.Path, got, true)
-			report(i, fs, wire)
+			trace = append(trace, map[string]any{"step": i, "op": "cycle", "url": "http://" + op.Host + op.Path, "redirect_target": op.Target, "cookie_header": wire, "set_cookie": lines, "t_ms": sentMs})
+			if op.Target == "" {
+				// (what is sent along a redirect chain is not judged: the Cookie header recorded is
+				// that of the last hop)
+				fs := spec.judge(sentAt, op.Host, op.Path, got, true)
+				report(i, fs, wire)
+			}
 			for _, w := range ws {
 				spec.put(w)
 			}
